@@ -1,12 +1,12 @@
 ---------------------------- MODULE CsvImportMC ----------------------------
-(* Bounded instance of CsvImport.  Every stream of at most MaxRecs records  *)
+(* Bounded instance of CsvImport.  Every stream of EmitFrom..MaxRecs records *)
 (* over the classes is printed as one scenario: the records' field texts,   *)
 (* the expected per-record outcomes and the expected final table.  The      *)
 (* harness renders the records as CSV text with separator Sep, runs the     *)
 (* real doBatchInsert on a fresh database and reads the table back.         *)
 EXTENDS CsvImport, Json
 
-CONSTANTS MaxRecs, Sep, EmitOn
+CONSTANTS MaxRecs, Sep, EmitFrom   \* scenarios are printed for streams of EmitFrom..MaxRecs records
 
 \* The importer as it was found in the unchanged tree, kept as a named deviation: csvToSql has
 \* no case for BIGINT, so a field destined for a BIGINT column is never looked at and the column
@@ -52,7 +52,7 @@ Scn(s, d, o, t, no, nt) ==
             exp |-> [outcomes |-> o, table |-> t], taint |-> TaintOf(s),
             naive |-> [outcomes |-> no, table |-> nt]]
 
-Emit == EmitOn => PrintT(<<"SCN", ToJson(Scn(stream', descs', outcomes', table', nout', ntable'))>>)
+Emit == (pos' >= EmitFrom) => PrintT(<<"SCN", ToJson(Scn(stream', descs', outcomes', table', nout', ntable'))>>)
 
 \* the taint is exact in the model, and every tainted stream of the deviation violates C19
 TaintExact == (TaintOf(stream) # <<>>) <=> (ntable # table \/ nout # outcomes)
